@@ -72,7 +72,7 @@ pub fn run(args: &[String]) -> i32 {
     let traces = arg(args, "--traces").expect("--traces");
     let out_path = arg(args, "--out").expect("--out");
     let policies: usize = arg(args, "--policies").and_then(|s| s.parse().ok()).unwrap_or(2);
-    let (contents, _) = Contents::load(arg(args, "--contents").unwrap_or("/verif/data/contents.json"));
+    let (contents, _) = Contents::load(&arg(args, "--contents").map(|s| s.to_string()).unwrap_or_else(crate::util::contents_default));
     let mut w = std::io::BufWriter::new(std::fs::File::create(traces).expect("traces"));
     let mut inputs: Vec<(String, String)> = Vec::new();
     if let Some(p) = walks {
